@@ -407,8 +407,9 @@ func validateNonEmpty(v interface{}, name string) error {
 }
 
 func validateNonEmptyWithAllowNil(v interface{}, _ string, allowNil bool) error {
-	if s, ok := v.(string); ok {
-		if s == "" {
+	// go by kind, so that named string types (type T string) are checked as well
+	if s := reflect.ValueOf(v); s.Kind() == reflect.String {
+		if s.Len() == 0 {
 			return ErrStringEmpty
 		}
 		return nil
